@@ -38,6 +38,9 @@ type rsCase struct {
 	Right      int      `json:"slot_right"`
 	Refuse     int      `json:"refused_psyncs"`
 	Masters    []string `json:"master_per_attempt"` // phase 2, attempt i: "A", "B" or "C"
+	// Single: the shard is known with one node only (no replica was listed at start-up); Masters[i]
+	// "none": at that attempt no node reports the master role
+	Single bool `json:"single_known_node,omitempty"`
 }
 
 var rsNodes = []string{"srcA:6379", "srcB:6379", "srcC:6379"}
@@ -89,7 +92,9 @@ func rsRun(t *testing.T, c rsCase, tgt *mredis.Server, phase int, stream1, strea
 				for _, n := range rsNodes {
 					ms[n].Role = "slave"
 				}
-				ms[masterOf(attempt)].Role = "master"
+				if m := ms[masterOf(attempt)]; m != nil {
+					m.Role = "master"
+				}
 			}
 			refused := 0
 			type accepted struct {
@@ -138,6 +143,9 @@ func rsRun(t *testing.T, c rsCase, tgt *mredis.Server, phase int, stream1, strea
 				return cc, nil, true
 			})
 			node := &slot.SyncNode{Id: 7, Source: rsNodes[0], Slaves: []string{rsNodes[1], rsNodes[2]}, Target: []string{"tgt:6379"}, SlotLeftBoundary: c.Left, SlotRightBoundary: c.Right}
+			if c.Single {
+				node.Slaves = nil
+			}
 			ds := NewDbSyncer(node, 9320, semaphore.NewWeighted(1))
 			go ds.Sync()
 			served := 0
@@ -244,6 +252,16 @@ func rsOne(t *testing.T, c rsCase) (kind, what string) {
 	end1 := int64(rsBase + len(stream1))
 	p2 := rsRun(t, c, tgt, 2, stream1, stream2)
 	desc := func() string { return fmt.Sprintf("PSYNCs of the restarted process: %+v", p2.psyncs) }
+	if len(c.Masters) > 0 && c.Masters[0] == "none" {
+		// no node reports the master role: bounded retries, then an error; never a sync from a replica
+		if len(p2.psyncs) > 0 {
+			return "psync-to-non-master", fmt.Sprintf("no known node reports role:master and the tool sends PSYNC to %s", p2.psyncs[0].Node)
+		}
+		if !p2.abort {
+			return "no-error-without-master", "no known node reports role:master and the restarted process neither syncs nor reports an error within 60 s"
+		}
+		return "", ""
+	}
 	if p2.abort {
 		return "abort", fmt.Sprintf("the restarted process aborts although a master exists at every moment (%s)", desc())
 	}
@@ -274,6 +292,9 @@ func rsOne(t *testing.T, c rsCase) (kind, what string) {
 			if n != last.Node {
 				others = append(others, n)
 			}
+		}
+		if c.Single {
+			others = nil // the tool knows no other node of this shard
 		}
 		got := append([]string{}, p2.node.Slaves...)
 		sort.Strings(got)
@@ -324,6 +345,10 @@ func rsFailoverCases() []rsCase {
 	for _, a := range letters {
 		out = append(out, rsCase{Sub: "failover", SourceType: conf.RedisTypeCluster, Left: 0, Right: 5460, Refuse: 0, Masters: []string{a}})
 	}
+	// nobody is master (full node list, and a shard known with a single node)
+	out = append(out, rsCase{Sub: "failover", SourceType: conf.RedisTypeCluster, Left: 0, Right: 5460, Masters: []string{"none"}},
+		rsCase{Sub: "failover", SourceType: conf.RedisTypeCluster, Left: 0, Right: 5460, Masters: []string{"none"}, Single: true},
+		rsCase{Sub: "failover", SourceType: conf.RedisTypeCluster, Left: 0, Right: 5460, Masters: []string{"A"}, Single: true})
 	// two and three attempts: every sequence of masters
 	for _, a := range letters {
 		for _, b := range letters {
